@@ -219,7 +219,7 @@ package redis
 //@   loop 0 invariant readerRI(b) && b.buf == old(b.buf) && b.rd == old(b.rd) && b.err == nil && windowok(b) && rpos(b) == old(rpos(b))
 
 //@ func (*Reader).ReadBytes
-//@   prop C10 C11
+//@   prop C10 C11 C03 C01
 //@   requires readerRI(b) && (b.err == nil ==> windowok(b))
 //@   modifies b.r, b.w, b.err, b.buf[0:len(b.buf)], b.slice.allocs, b.slice.buf, b.slice.buf[0:len(b.slice.buf)], fetched
 //@   ensures @ri readerRI(b) && b.buf == old(b.buf) && b.rd == old(b.rd) && (b.err == nil ==> windowok(b))
@@ -236,7 +236,7 @@ package redis
 //@   loop 1 invariant 0 <= n && n <= len(buf) && len(buf) == size && !isnil(last) && size >= len(last) && len(last) >= 1 && (size == 0 || fresh(buf) || within(buf, old(b.slice.buf)))
 
 //@ func (*Reader).ReadFull
-//@   prop C10 C11
+//@   prop C10 C11 C03 C01
 //@   requires readerRI(b) && (b.err == nil ==> windowok(b)) && 0 <= n && disjoint(b.buf, b.slice.buf)
 //@   modifies b.r, b.w, b.err, b.buf[0:len(b.buf)], b.slice.allocs, b.slice.buf, b.slice.buf[0:len(b.slice.buf)], fetched
 //@   ensures @ri readerRI(b) && b.buf == old(b.buf) && b.rd == old(b.rd) && (b.err == nil ==> windowok(b)) && disjoint(b.buf, b.slice.buf)
@@ -252,14 +252,14 @@ package redis
 //@   ensures @ri decoderOK(d) && d.br == old(d.br)
 
 //@ func (*decoder).decodeTextBytes
-//@   prop C10 C11
+//@   prop C10 C11 C03 C01
 //@   requires decoderOK(d)
 //@   modifies d.br.r, d.br.w, d.br.err, d.br.buf[0:len(d.br.buf)], d.br.slice.allocs, d.br.slice.buf, d.br.slice.buf[0:len(d.br.slice.buf)], fetched
 //@   ensures @ri decoderOK(d) && d.br == old(d.br)
 //@   ensures @text-does-not-alias-the-read-buffer result1 == nil ==> disjoint(result0, d.br.buf)
 
 //@ func (*decoder).decodeBulkString
-//@   prop C10 C11
+//@   prop C10 C11 C03 C01
 //@   requires decoderOK(d)
 //@   modifies d.br.r, d.br.w, d.br.err, d.br.buf[0:len(d.br.buf)], d.br.slice.allocs, d.br.slice.buf, d.br.slice.buf[0:len(d.br.slice.buf)], fetched
 //@   ensures @ri decoderOK(d) && d.br == old(d.br)
